@@ -305,6 +305,9 @@ pub fn run_history_with(h: &History, checks: Checks, stop_at_first: bool, source
             break;
         }
     }
+    if checks.alloc {
+        removed_darts_invisible(&map, &pre, executed.len(), &mut findings);
+    }
     if checks.ids_orbits && pre.wf().is_ok() && !(stop_at_first && !findings.is_empty()) {
         c03_check(&map, &pre, &mut probes, &mut findings, executed.len());
     }
@@ -390,6 +393,45 @@ fn alloc_checks(map: &AnyMap, pre: &State, id: u32, n: u32, may_reuse: bool, si:
             }
         }
     }
+}
+
+/// C18: removed darts are reported by no cell iterator and by no orbit of a remaining dart.
+fn removed_darts_invisible(map: &AnyMap, s: &State, step: usize, findings: &mut Vec<StepFinding>) {
+    let removed: Vec<u32> = (1..s.n() as u32).filter(|&d| s.unused[d as usize]).collect();
+    if removed.is_empty() {
+        return;
+    }
+    let mut bad = |class: &str, msg: String| findings.push(StepFinding { step, finding: Finding { prop: "C18", class: class.into(), msg } });
+    let okinds: &[u8] = if s.dim == 2 { &[0, 1, 2] } else { &[0, 1, 2, 3] };
+    for &o in okinds {
+        let it = map.iter_cells(o);
+        if let Some(d) = it.iter().find(|d| removed.contains(d)) {
+            bad("removed-dart-reported-by-iterator", format!("removed dart {d} is yielded by the iterator over {} cells", ["vertex", "edge", "face", "volume"][o as usize]));
+        }
+    }
+    let pols: &[Policy] = if s.dim == 2 { &[Policy::Vertex, Policy::Edge, Policy::Face] } else { &[Policy::Vertex, Policy::Edge, Policy::Face, Policy::Volume] };
+    for d in 1..s.n() as u32 {
+        if s.unused[d as usize] {
+            continue;
+        }
+        for &p in pols {
+            let orb = map.orbit(p, d);
+            if let Some(x) = orb.iter().find(|x| removed.contains(x)) {
+                bad("removed-dart-in-orbit", format!("removed dart {x} is in orbit({p:?}, {d}) = {orb:?}"));
+                return;
+            }
+        }
+    }
+}
+
+/// C18: `remove_free_dart` of a linked or already removed dart must be refused (it panics).
+/// Sacrificial: runs in its own execution on a map rebuilt from `s`. Returns true when refused.
+pub fn removal_is_refused(s: Arc<State>, order: KindOrder, d: u32) -> bool {
+    let r = execute_serial(move || {
+        let (mut map, _) = build_map(&s, &order);
+        map.remove_free_dart(d);
+    });
+    !matches!(r.outcome, Outcome::Done(()))
 }
 
 /// Run the history in its own execution.
